@@ -33,6 +33,10 @@ type Options struct {
 	Copy bool
 	// MapRange routes range-over-map through simrt.MapKeys (R7).
 	MapRange bool
+	// WrapMain renames func main to verifRealMain and adds a main that runs it
+	// under simrt.Main (whole-binary simulation); os.Exit becomes simrt.Exit so
+	// that the run's tape is saved before the process ends.
+	WrapMain bool
 	// Forbid lists import paths that must not appear (they would bypass a seam).
 	Forbid []string
 	// SiteBase is added to yield site numbers (file index << 20).
@@ -176,6 +180,11 @@ func (r *rewriter) run() error {
 			if n.Body != nil && n.Name.Name == "init" && n.Recv == nil {
 				return false
 			}
+			if r.opt.WrapMain && n.Recv == nil && n.Name.Name == "main" && r.file.Name.Name == "main" {
+				r.replace(n.Name.Pos(), n.Name.End(), "verifRealMain")
+				r.insert(r.file.End(), "\nfunc main() { simrt.Main(verifRealMain) }\n", 0)
+				r.needRT = true
+			}
 			if n.Body != nil && r.opt.Yields && r.opt.FuncEntryOnly && len(n.Body.List) > 0 {
 				r.yieldBefore(n.Body.List[0])
 			}
@@ -200,6 +209,16 @@ func (r *rewriter) run() error {
 				err = r.goStmt(n)
 			}
 		case *ast.CallExpr:
+			if r.opt.WrapMain {
+				if sel, ok := n.Fun.(*ast.SelectorExpr); ok && sel.Sel.Name == "Exit" {
+					if id, ok := sel.X.(*ast.Ident); ok && id.Name == "os" {
+						if pn, ok := r.info.Uses[id].(*types.PkgName); ok && pn.Imported().Path() == "os" {
+							r.replace(sel.Pos(), sel.End(), "simrt.Exit")
+							r.needRT = true
+						}
+					}
+				}
+			}
 			if r.opt.Copy {
 				if id, ok := n.Fun.(*ast.Ident); ok && id.Name == "copy" && len(n.Args) == 2 {
 					if _, isB := r.info.Uses[id].(*types.Builtin); isB {
